@@ -16,6 +16,36 @@ P = {
              note="integer segments are delimited by the primitive's specification", ref="4 C03"),
 }
 
+P.update({
+ "C04": dict(engine="histx", technique="exhaustive operation-history exploration (all op sequences to a depth bound x buffer capacity classes) of real buffers/messages against a pure model",
+             text="For the 4 frame types with a computed length x every registered body key (Z, D+stale, L bodies) + nil body: every sequence of <=3 (quick) / <=5 (thorough) operations from {ENC x3, SKIP x2, JUNK x2, RESET} x 7 buffer capacity classes is replayed on fresh real objects; after every operation the buffer and the message object are compared with a model in which the length field equals the number of body bytes.",
+             note="model ENC transition = unread ++ EncodeRef(m); consumed bytes are not observable", ref="4 C04"),
+ "C05": dict(engine="histx", technique="exhaustive operation-history exploration against a pure model with independent bitwise checksum references",
+             text="Same histories as C04 for the 3 checksummed frame types; the trailer on the wire and frame.Checksum must equal an independent byte-sum / CRC-32 over exactly this frame's bytes after the length patch, in every prior buffer state reached by the histories.",
+             note="independent checksum implementations in engine/refmodel", ref="4 C05"),
+ "C06": dict(engine="histx", technique="exhaustive operation-history exploration (append-only / context-free / repeatable oracle)",
+             text="Every one of the 170 types as a single-type scenario (plus nil-extension and long variants and all frame scenarios): all operation sequences to depth 3/4 (frames 3/5) over {ENC(m0),ENC(m1),SKIP,SKIP,JUNK,RESET} x 3 capacity classes; after each ENC the unread buffer must be prior ++ EncodeRef(m) with prior bytes identical; re-encoding the same object appends the same bytes.",
+             note="model ENC transition = unread ++ EncodeRef(m)", ref="4 C06"),
+ "C07": dict(engine="histx", technique="exhaustive enumeration of encode/tail/decode histories on real buffers against the reference decoder",
+             text="Per type: every tuple of <=3 (4) encodes of {Z,D,L,other-body} messages into one buffer x 5 tails, followed by as many decodes, plus all free sequences to depth 3 (4) over {ENC,ENC,JUNK,JUNK,DEC,SKIP}; each decode must consume exactly the message, yield the original and leave the rest byte-identical.",
+             note="after a failed decode the model re-synchronises (C07 constrains only successful decodes)", ref="4 C07"),
+ "C08": dict(engine="wirex", technique="bounded-exhaustive wire enumeration (reference wires + <=k byte substitutions), decode-then-encode oracle",
+             text="Per type: all reference wires of V1 including non-canonical forms and every 1-byte substitution from a 7-byte alphabet (2-byte on base wires in thorough); every wire the library accepts must re-encode to the consumed bytes, differences allowed only inside computed fields which must then be correct.",
+             note="hostile-prefix wires are delegated to C09/C10", ref="4 C08"),
+ "C09": dict(engine="wirex-workers", technique="bounded-exhaustive wire enumeration executed in RLIMIT_AS-limited worker processes with journalled cases (process death attributed to a case)",
+             text="Every message decoder and every read primitive instantiation x {all strings <=2 bytes, every truncation of every V1 wire, seeds + 1-byte substitutions, every count/length prefix at extreme values with 0..8 trailing bytes, unregistered keys}: 24M cases in quick; each must return without panic or process death (and within a loop-iteration budget when instrumentation is active).",
+             note="20-minute hang guard per worker; worker death attributed to the mmap-journalled case", ref="4 C09"),
+ "C10": dict(engine="wirex-workers", technique="bounded-exhaustive wire enumeration with exact per-call allocation measurement (TotalAlloc delta) in address-space-limited workers",
+             text="Same 24M-case space as C09; TotalAlloc delta around each single decode <= 4096+64*len(input) and the worker survives an 8 GiB address-space limit. Exact and deterministic (GOMAXPROCS=1, ReadMemStats).",
+             note="budget constants calibrated on the pinned tree (max legit ratio 17 B/wire byte) and re-validated on all valid encodings in every run", ref="4 C10"),
+ "C11": dict(engine="wirex", technique="exhaustive enumeration of every cut position of every canonical V1 encoding",
+             text="Per type: every canonical V1 value (V2 of structural positions in thorough) x every cut 0..len-1 (3.9M prefixes in quick) must be rejected by the real decoder.",
+             note="zero-length encodings have no strict prefix and are reported separately", ref="4 C11"),
+ "C16": dict(engine="histx", technique="exhaustive operation-history exploration with a separation invariant (deep snapshots) incl. scribbling over caller-owned backing arrays",
+             text="Per type: all operation sequences to depth 3/4 over {ENC,ENC,DEC,SCRIBBLE,RESET,MUT} on a buffer over a caller-owned slice and on a zero-value buffer; after every op every decoded message must equal its deep snapshot and the buffer must equal the model.",
+             note="snapshots are deep copies through reflection", ref="4 C16"),
+})
+
 NOT_YET = {
 }
 
